@@ -242,6 +242,10 @@ fn explore_vector(part: &mut Part, x: &Vo, depth_cap: usize) -> (usize, bool) {
                             part.count("exhausted_states_reached", 1);
                         }
                         if seen.insert(s) {
+                            if calls.len() >= 3 && len >= 5 && !part.has_sample("iter") {
+                                part.sample("iter", json!({"vector": x.show(), "calls": show_calls(&calls), "reaches_real_state_start_end": [s.0, s.1], "model_remaining": [s.2, s.3],
+                                    "then_compared": "size_hint count last rev().collect() collect() and every alphabet call from that state"}));
+                            }
                             let fp = crate::report::fingerprint(&raw_before) ^ ((s.0 as u64) << 40 ^ (s.1 as u64) << 20 ^ (s.2 as u64) << 10 ^ s.3 as u64).wrapping_mul(0x9E3779B97F4A7C15);
                             part.states.insert(fp);
                             queue.push_back(calls);
